@@ -191,7 +191,7 @@ def c03(ctx):
 # =========================================================================================
 #  state animator: C04 C05 C06 C07
 # =========================================================================================
-NK = 7   # size of the animator configuration pool in MC_Animator.tla
+NK = 8   # size of the animator configuration pool in MC_Animator.tla
 
 
 def mc_animator(ctx):
